@@ -285,6 +285,64 @@ def decide(prop, tier, seed):
     return 0
 
 
+def decide_all(tier):
+    """Self-test mode (`./check ALL`): every Verus unit and every Kani harness once; prints every failed obligation with the
+    properties it serves and every undecided item.  Not a property check (writes no evidence)."""
+    import concurrent.futures
+    known = load_known()
+    units = sorted(fn[:-4] for fn in os.listdir(common.CONTRACTS) if fn.endswith(".vrs") and "verus! {" in open(os.path.join(common.CONTRACTS, fn)).read())
+    hs = [h for h in kunit.load_harnesses() if tier == "thorough" or h.tier == "quick"]
+    failed, undecided = [], []
+    vres = vunit.run_units(units, tier, 0)
+    for (u, res, tw) in vres:
+        if res.get("undecided"):
+            undecided.append("verus unit %s: %s" % (res.get("unit"), res["undecided"][:300]))
+            continue
+        if tw and tw.get("undecided"):
+            undecided.append("verus unit %s: %s" % (u.name, tw["undecided"]))
+        obs = u.obligations()
+        for oid in res["failed"]:
+            failed.append((oid, sorted(obs.get(oid, []))))
+    try:
+        kres, _ = kunit.run_kani(hs, jobs=14)
+    except Undecided as e:
+        undecided.append("kani: %s" % e)
+        kres = {}
+    for h in hs:
+        r = kres.get(h.name)
+        if r is None:
+            continue
+        if r["status"] == "undecided":
+            undecided.append("kani harness %s: %s %s" % (h.name, r.get("reason", ""), (r.get("output", "") or "")[-300:].replace("\n", " | ")))
+            continue
+        if h.expect == "panic":
+            if r["status"] != "success":
+                failed.append(("kani:%s:[documented-panic]" % h.name, h.props))
+            continue
+        cov = r.get("covers")
+        if cov and cov[0] < cov[1] and r["status"] == "success":
+            undecided.append("kani harness %s: only %d of %d cover points reachable" % (h.name, cov[0], cov[1]))
+        for fc in r.get("failed_checks", []):
+            ps, tag = kunit.props_of_failed_check(fc["description"], h)
+            oid = "kani:%s:[%s]" % (h.name, tag) if TAGGED(fc["description"]) else "kani:%s:safety" % h.name
+            failed.append((oid, ps))
+    seen = set()
+    nviol = 0
+    for oid, ps in failed:
+        if oid in seen:
+            continue
+        seen.add(oid)
+        if any(known_match(p, oid, known) for p in ps):
+            print("KNOWN-FINDING %s %s" % (oid, ",".join(ps)))
+        else:
+            nviol += 1
+            print("FAILED %s %s" % (oid, ",".join(ps)))
+    for u in undecided:
+        print("UNDECIDED %s" % u)
+    print("ALL tier=%s units=%d harnesses=%d failed=%d undecided=%d" % (tier, len(units), len(hs), nviol, len(undecided)))
+    return 1 if nviol else (2 if undecided else 0)
+
+
 def TAGGED(desc):
     return kunit.TAGMSG_RE.search(desc) is not None
 
